@@ -1,12 +1,15 @@
 /-
-  RoModel.Plugins.Sort — plugins/sort/operator.go:41-112.  All three operators collect the source
-  (`ro.CollectWithContext`), call `sort.Slice(values, func(i, j) bool { return cmp(values[i], values[j]) < 0 })`
-  and replay the slice with the context of the terminal notification.
+  RoModel.Plugins.Sort — plugins/sort/operator.go.  All three operators collect the source
+  (`ro.CollectWithContext`), sort the slice with `less(i, j) = cmp(values[i], values[j]) < 0`
+  and replay it with the context of the terminal notification.
 
-  `sort.Slice` is pdqsort_func (zsortfunc.go): for at most 12 elements it is `insertionSortLessFunc`
-  (modelled: `goInsertionSort`), above that a pattern-defeating quicksort that is not modelled —
-  it enters as the parameter `big`, of which only "returns a sorted permutation" is assumed
-  (package sort's contract).  The stable reference is core's `List.mergeSort`.
+  `Sort` and `SortFunc` call `sort.Slice`, which is pdqsort_func (zsortfunc.go): for at most 12
+  elements it is `insertionSortLessFunc` (modelled: `goInsertionSort`), above that a
+  pattern-defeating quicksort that is not modelled — it enters as the parameter `big`, of which
+  only "returns a sorted permutation" is assumed (package sort's contract).
+  `SortStableFunc` calls `sort.SliceStable` (insertion sort on blocks + symMerge; not modelled line
+  by line): package sort promises a stable sort, and it is modelled by THE stable sort, core's
+  `List.mergeSort` (`stableSort`).
 -/
 import RoModel.Machine
 namespace Ro.Plugins.Sort
@@ -29,7 +32,7 @@ def goInsertionSort (lt : α → α → Bool) (l : List α) : List α :=
 def sortSlice (big : List α → List α) (lt : α → α → Bool) (l : List α) : List α :=
   if l.length ≤ 12 then goInsertionSort lt l else big l
 
-/-- the documented meaning of `SortStableFunc`: the stable sort -/
+/-- `sort.SliceStable` — what `SortStableFunc` runs: the stable sort -/
 def stableSort (lt : α → α → Bool) (l : List α) : List α := l.mergeSort (fun a b => !lt b a)
 
 /-- `Sort` / `SortFunc` / `SortStableFunc` as a machine. State: the collected values. -/
